@@ -10,3 +10,71 @@ Theorem c16_index_template_pinned :
   index_template_rows = expected_index_rows /\ index_template_trailer = s_nl +++ s_nl /\ index_join_sep = " "%string.
 Proof. exact index_rows_pinned. Qed.
 Print Assumptions c16_index_template_pinned.
+
+(* ---- APKINDEX: write then read ---------------------------------------------
+   [enc]/[dec] stand for base64 (encoding/base64 is library code): any pair with
+   dec (enc b) = Some b.  [pkg_ok]: sizes and priority fit uint64, build time
+   fits int64, list items are non-empty and space-free (what the space-joined
+   rows can carry).  [lines_fit]: no written line contains LF, ends in CR, or
+   exceeds the reader's token limit (the generated index_max_token).  For EVERY
+   list of such records — any number, any field values, named or not — the
+   reader returns exactly the named records with every field the property
+   lists intact, except replaces (finding C16-F3, refuted form below). *)
+Theorem c16_index_roundtrip :
+  forall (enc : list N -> string) (dec : string -> option (list N)),
+  (forall b, dec (enc b) = Some b) ->
+  forall ps, Forall pkg_ok ps ->
+  lines_fit index_max_token (flat_map (record_lines enc) (named ps)) ->
+  parse_index dec (write_index enc ps) = Ok (map norm_index (named ps)) /\
+  (Forall (fun p => p_replaces p = []) ps ->
+   IndexRoundTrip ps (parse_index dec (write_index enc ps))).
+Proof.
+  intros enc dec codec ps H1 H2. split.
+  - exact (index_roundtrip enc dec codec ps H1 H2).
+  - intro H3. exact (index_roundtrip_spec enc dec codec ps H1 H2 H3).
+Qed.
+Print Assumptions c16_index_roundtrip.
+
+(* hypotheses are satisfiable on a record with every field populated *)
+Example c16_index_roundtrip_ex :
+  let enc := fun b : list N => sconcat (map (fun n => fmt_n n +++ ",") b) in
+  let p := set_prio 7%N (set_isize 4096%N (set_size 18446744073709551615%N
+            (set_installif ["x"; "y=1"] (set_provides ["so:libc.so.6=1"; "cmd:a"] (set_deps ["b>1"; "!c"]
+            (set_commit "abc" (set_url "https://e" (set_maint "m <m@e>" (set_origin "o" (set_license "MIT"
+            (set_desc "a b c" (set_arch "x86_64" (set_version "1.2.3-r4" (set_name "a" empty_pkg)))))))))))))) in
+  pkg_ok p /\ lines_fit index_max_token (flat_map (record_lines enc) (named [p])) /\
+  named [p] = [p] /\ p_replaces p = [].
+Proof.
+  cbn zeta. split; [|split; [|split]].
+  - constructor; try (vm_compute; (reflexivity || lia));
+      try (repeat constructor; try discriminate).
+  - unfold lines_fit. vm_compute flat_map.
+    repeat constructor; try (vm_compute; (reflexivity || discriminate || lia)).
+  - vm_compute; reflexivity.
+  - reflexivity.
+Qed.
+
+(* reading a written index and writing it again reproduces the file *)
+Theorem c16_index_read_write_fixpoint :
+  forall (enc : list N -> string) (dec : string -> option (list N)),
+  (forall b, dec (enc b) = Some b) ->
+  forall ps, Forall pkg_ok ps ->
+  lines_fit index_max_token (flat_map (record_lines enc) (named ps)) ->
+  exists l, parse_index dec (write_index enc ps) = Ok l /\ write_index enc l = write_index enc ps.
+Proof. exact index_read_write_fixpoint. Qed.
+Print Assumptions c16_index_read_write_fixpoint.
+
+(* the full statement (replaces included) is false: finding C16-F3 *)
+Theorem c16_index_replaces_refuted :
+  let enc := fun _ : list N => ""%string in let dec := fun _ : string => Some (@nil N) in
+  dec (enc (p_checksum witness_replaces)) = Some (p_checksum witness_replaces) /\
+  ~ IndexRoundTrip [witness_replaces] (parse_index dec (write_index enc [witness_replaces])).
+Proof. exact index_replaces_refuted. Qed.
+Print Assumptions c16_index_replaces_refuted.
+
+(* the validator the correspondence stage runs on the IMPLEMENTATION's read-back
+   decides the readable statement *)
+Theorem c16_index_validator_decides : forall orig rb,
+  index_rt_tags orig rb = [] <-> IndexRoundTrip orig rb.
+Proof. exact index_validator_decides. Qed.
+Print Assumptions c16_index_validator_decides.
